@@ -118,7 +118,10 @@ func (w *webSocketClient) listenWebSocket() {
 	defer verifRecover()
 	for {
 		verifYield("reader.loop")
-		if w.isClosing {
+		w.Lock()
+		isClosing := w.isClosing
+		w.Unlock()
+		if isClosing {
 			return
 		}
 		_, message, err := w.conn.ReadMessage()
